@@ -183,6 +183,10 @@ func genOp(rt *rapid.T, names []string) trial.Op {
 	return trial.Op{Name: rapid.SampledFrom(names).Draw(rt, "op"), Space: rapid.IntRange(0, 3).Draw(rt, "space"), Arg: rapid.IntRange(0, 70000).Draw(rt, "arg")}
 }
 
+// forceMode makes gen produce one kind of special trial ("storm", "crowd", "hammer"): every run contains a fixed
+// minimum of each kind instead of leaving their number to chance
+var forceMode string
+
 func gen(rt *rapid.T) (trial.Trial, bool) {
 	var tr trial.Trial
 	n := rapid.SampledFrom([]int{2, 2, 3, 4, 8, 16, 64}).Draw(rt, "goroutines-max")
@@ -213,7 +217,7 @@ func gen(rt *rapid.T) (trial.Trial, bool) {
 	}
 	// a quarter of the trials are "hammer" trials: few cheap operations, many repetitions, all goroutines on the
 	// same small alphabet with different arguments (value corruption through shared caches is not a data race)
-	if rapid.IntRange(0, 3).Draw(rt, "hammer") == 0 {
+	if rapid.IntRange(0, 3).Draw(rt, "hammer") == 0 || forceMode == "hammer" {
 		tr.Reps = rapid.SampledFrom([]int{2000, 20000}).Draw(rt, "hammerreps")
 		hammerLoads := false
 		names := []string{rapid.SampledFrom([]string{"Adapt", "ToXYZ", "Primaries", "From8To8", "From16", "To16", "LineariseColor", "EncodeColor", "DecodeTyped", "LoadFamily", "LoadFamily", "Profile"}).Draw(rt, "hammerop")}
@@ -230,7 +234,7 @@ func gen(rt *rapid.T) (trial.Trial, bool) {
 	}
 	// an eighth of the trials are crowds: 40..160 goroutines that all run image transforms with many workers at
 	// once (resources shared between concurrent transforms - worker pools, scratch buffers - only run out then)
-	if rapid.IntRange(0, 7).Draw(rt, "crowd") == 0 {
+	if (rapid.IntRange(0, 7).Draw(rt, "crowd") == 0 && forceMode == "") || forceMode == "crowd" {
 		n := rapid.IntRange(40, 160).Draw(rt, "crowdsize")
 		tr.Reps = rapid.SampledFrom([]int{1, 3}).Draw(rt, "crowdreps")
 		tr.Start = "barrier"
@@ -240,6 +244,22 @@ func gen(rt *rapid.T) (trial.Trial, bool) {
 			var ops []trial.Op
 			for len(ops) < k {
 				ops = append(ops, genOp(rt, []string{"TransformBig", "TransformBig", "LineariseImage", "EncodeImage", "ConvertImage"}))
+			}
+			tr.Goroutines = append(tr.Goroutines, ops)
+		}
+	}
+	// an eighth are load storms: 16..64 goroutines that each load several different files / profiles of the family
+	// again and again, so that far more distinct inputs are in flight than any cache, pool or ring has slots
+	if rapid.IntRange(0, 7).Draw(rt, "loadstorm") == 0 || forceMode == "storm" {
+		n := rapid.IntRange(16, 64).Draw(rt, "stormsize")
+		tr.Reps = rapid.SampledFrom([]int{10, 40}).Draw(rt, "stormreps")
+		tr.Start = "barrier"
+		tr.Goroutines = nil
+		for g := 0; g < n; g++ {
+			k := rapid.IntRange(3, 6).Draw(rt, "stormops")
+			var ops []trial.Op
+			for len(ops) < k {
+				ops = append(ops, genOp(rt, []string{"LoadFamily", "LoadFamily", "LoadFamily", "Profile", "Load"}))
 			}
 			tr.Goroutines = append(tr.Goroutines, ops)
 		}
@@ -268,7 +288,7 @@ func TestC11(t *testing.T) {
 		fmt.Println("REPLAY case passed (5 fresh processes)")
 		return
 	}
-	ev.Rule("generated trial descriptions: 2..64 goroutines, GOMAXPROCS 1..16, per goroutine 1-6 operations from {From16Bit/To16Bit of every space (lazily built tables), 8-bit decode/encode, LineariseColor, EncodeColor, Linearise/EncodeImage with parallelism 1..8 on per-goroutine destinations and shared read-only sources, ConvertImageTo*, the four loaders on shared byte slices, the ICC profile reader on 12 profiles with distinct headers (with rejected headers in between), chromatic adaptation / Lab, XYZ transforms}, start shape one barrier / two waves / per-goroutine Gosched counts; an eighth of the trials are crowds of 40..160 goroutines running image transforms of a 96x64 image with 2..16 workers each; three quarters of the trials put the FIRST call to the same lazily built table on >= 2 goroutines behind the same barrier. Each trial runs in a fresh process built with -race from the current tree. Oracle: race detector (exit 66) + every operation's result digest equals the digest from a sequential process running the same operation lists. non-trivial = distinct trial with a first-use collision or an image transform with parallelism > 1")
+	ev.Rule("generated trial descriptions: 2..64 goroutines, GOMAXPROCS 1..16, per goroutine 1-6 operations from {From16Bit/To16Bit of every space (lazily built tables), 8-bit decode/encode, LineariseColor, EncodeColor, Linearise/EncodeImage with parallelism 1..8 on per-goroutine destinations and shared read-only sources, ConvertImageTo*, the four loaders on shared byte slices, the ICC profile reader on 12 profiles with distinct headers (with rejected headers in between), chromatic adaptation / Lab, XYZ transforms}, start shape one barrier / two waves / per-goroutine Gosched counts; an eighth are load storms (16..64 goroutines each loading 3-6 of 240 files with 80 distinct profiles, repeatedly); an eighth of the trials are crowds of 40..160 goroutines running image transforms of a 96x64 image with 2..16 workers each; three quarters of the trials put the FIRST call to the same lazily built table on >= 2 goroutines behind the same barrier. Each trial runs in a fresh process built with -race from the current tree. Oracle: race detector (exit 66) + every operation's result digest equals the digest from a sequential process running the same operation lists. non-trivial = distinct trial with a first-use collision or an image transform with parallelism > 1")
 	ev.Assume("the Go race detector's happens-before analysis; schedules are explored only as far as the Go scheduler varies them")
 	// phase 1: rapid only draws the trial descriptions (cheap); phase 2 executes them 8 at a time
 	type item struct {
@@ -282,6 +302,15 @@ func TestC11(t *testing.T) {
 		tr, nt := gen(rt)
 		items = append(items, item{tr, nt})
 	})
+	for _, mode := range []string{"storm", "crowd", "hammer"} {
+		forceMode = mode
+		ev.RapidChecks(ev.Pick(3, 60))
+		rapid.Check(t, func(rt *rapid.T) {
+			tr, _ := gen(rt)
+			items = append(items, item{tr, true})
+		})
+	}
+	forceMode = ""
 	type res struct {
 		kind, what string
 	}
